@@ -216,7 +216,11 @@ def check_loop_progress(ctx, rule, fn, progress, default_vars=()):
         if hb.cond is not None:
             for x in fn.node(hb.cond).walk():
                 if x.kind == "DeclRefExpr" and x.get("dk") in ("Var", "ParmVar") and x.get("local"):
-                    vars_.add(x.d["d"])
+                    y = std_unwrap(x)        # a reference parameter of a folded-in helper is its argument
+                    if y.kind == "DeclRefExpr":
+                        vars_.add(y.d["d"])
+                    else:
+                        vars_.add(x.d["d"])
         if not vars_:
             vars_ = set(default_vars)
 
@@ -716,6 +720,27 @@ def check_fmt_spec(ctx, unit):
                             problems.append("%s fails at %s and a path continues the scan without echoing the specifier" % (c.callee["n"], c.loc))
         if fails < 2:
             raise AnalysisBroken("anchor vanished: tested parse_fmt_spec / format_nth results (found %d)" % fails)
+        # the options object handed to parse_fmt_spec is constructed afresh for every specifier
+        fresh_bad = []
+        pcs = [n for n in f.events() if n.kind == "CXXMemberCallExpr" and n.callee and n.callee["n"] == "parse_fmt_spec" and not n.get("inlined")]
+        for pc in pcs:
+            pts = pc.callee.get("ptypes", [])
+            for a_, t_ in zip(pc.args, pts):
+                if "format_options" in t_ and t_.rstrip().endswith("&") and not t_.startswith("const"):
+                    v_ = flow._var_of(a_)
+                    inner = [lp for lp in loops if lp.contains(pc)]
+                    inner.sort(key=lambda lp: len(lp.body))
+                    decl = [n for n in f.events() if n.kind == "DeclStmt" and any(d.get("d") == v_ for d in n.get("decls", []))]
+                    reinit = [n for n in f.events() if n.kind in ("BinaryOperator", "CXXOperatorCallExpr") and n.children and flow._var_of(n.children[0] if n.kind == "BinaryOperator" else (n.args[0] if n.args else n)) == v_
+                              and f.dominates(n.id, pc.id) and inner and inner[0].contains(n)] if v_ is not None else []
+                    ok_ = v_ is not None and inner and ((decl and inner[0].contains(decl[0]) and f.dominates(decl[0].id, pc.id)) or bool(reinit))
+                    if not ok_:
+                        fresh_bad.append("the format_options passed to parse_fmt_spec at %s is not constructed (or reset) inside the scanning "
+                                         "loop: flags of one {}-spec leak into the next" % pc.loc)
+        if not pcs:
+            raise AnalysisBroken("anchor vanished: parse_fmt_spec call in format_object(fmt_impl)")
+        ctx.inst("T.fmt-conversions", "frg::detail_::format_object: per-spec options", not fresh_bad, f.loc,
+                 "; ".join(fresh_bad) if fresh_bad else "options object is a fresh local of the loop iteration", f)
         ctx.inst("T.fmt-conversions", "frg::detail_::format_object: echo sites", not problems, f.loc,
                  "; ".join(problems) if problems else "%d echo sites start at the recorded '{', end at the recorded '}' / at size(); "
                  "%d failure edges each lead to an echo" % (len(echo), fails), f)
